@@ -3,8 +3,8 @@ from props import seqcases, C02 as _C02, C03 as _C03, C16 as _C16
 
 LEVEL = "other"
 TECHNIQUE = "CBMC contracts on header_init/alloc/dealloc/del (DFCC + harness proofs through the real Type.c lookup), non-heap receivers of String/Tuple mutators as exceptional postconditions"
-LEVEL_TEXT = 'header_init/header by DFCC contract; alloc/alloc_raw/alloc_root, dealloc, del/del_raw/del_root, alloc_stack and static objects by harness proofs through the real Type.c for Int, String, Ref; element headers (type, Data) inside the container harnesses; stack Tuple receivers must raise ValueError before touching anything.'
-NOTE = 'calloc/free allocator contract assumed; String mutators on non-heap receivers not yet under contract'
+LEVEL_TEXT = 'header_init and header by DFCC contract; alloc/alloc_raw/alloc_root, dealloc, del/del_raw/del_root, alloc_stack and static objects by harness proofs through the real Type.c for Int, String, Ref; element / key / value headers (type, Data) in every container harness (Array, List, Table, Tree) and for iterator results; stack Tuple and stack String receivers must raise ValueError before touching anything; run-time types carry Type/Heap and their name and size.'
+NOTE = 'calloc/free allocator contract assumed; copy() and view results not under contract'
 EXPLANATION = LEVEL_TEXT
 TRUSTED = ["calloc returns NULL or a fresh zeroed block aligned to 8; free releases it (assumed allocator contract)",
            "set/rem(current(GC), p) register/delete p with the thread's collector (contracts discharged under C17/C06)"]
